@@ -483,12 +483,12 @@ func (p *parser) parseForExpression() ast.Expression {
 	p.nextToken()
 	expression.Iterable = p.parseExpression(LOWEST)
 
-	if ce, ok := expression.Iterable.(*ast.CallExpression); ok {
-		if ce.Block != nil {
-			expression.Block = ce.Block
-			ce.Block = nil
-			return expression
-		}
+	// "for (x) in f() {" : the loop's block was parsed as the block of the
+	// (last) call of the iterable expression
+	if ce := lastChainedCall(expression.Iterable); ce != nil && ce.Block != nil {
+		expression.Block = ce.Block
+		ce.Block = nil
+		return expression
 	}
 
 	if !p.expectPeek(token.LBRACE) {
@@ -785,6 +785,24 @@ func (p *parser) assignCallee(exp ast.Expression, calleeIdent *ast.Identifier) (
 	}
 
 	return
+}
+
+// lastChainedCall follows a path such as a.f().b[0].g() to its last call.
+func lastChainedCall(exp ast.Expression) *ast.CallExpression {
+	switch t := exp.(type) {
+	case *ast.CallExpression:
+		if t.ChainCallee != nil {
+			if last := lastChainedCall(t.ChainCallee); last != nil {
+				return last
+			}
+		}
+		return t
+	case *ast.IndexExpression:
+		if t.Callee != nil {
+			return lastChainedCall(t.Callee)
+		}
+	}
+	return nil
 }
 
 // rootIdentifier returns the first identifier of a receiver path (a in a.b.c).
